@@ -33,7 +33,13 @@ func MakeFromRequest(r *http.Request) CacheKey {
 	}
 	normHost := strings.ToLower(r.Host)
 	normPath := path.Clean(r.URL.Path)
-	stringKey := fmt.Sprintf("%s|%s|%s|%s|%s", scheme, r.Method, normHost, normPath, r.URL.RawQuery)
+	if strings.HasSuffix(r.URL.Path, "/") && !strings.HasSuffix(normPath, "/") {
+		// path.Clean drops a trailing slash, but "/dir/" and "/dir" are different resources.
+		normPath += "/"
+	}
+	// Every client-controlled component is quoted, so a separator character inside one of them
+	// (e.g. "/a|b?c" vs "/a?b|c") can never make two different requests produce the same key.
+	stringKey := fmt.Sprintf("%s|%q|%q|%q|%q", scheme, r.Method, normHost, normPath, r.URL.RawQuery)
 	slog.Debug("Creating cache key", "key", stringKey)
 	return FromString(stringKey)
 }
